@@ -13,6 +13,11 @@ def dispatch (line : String) : String :=
   | "pyval" :: args => Pyval.handle args
   | "names" :: args => Names.handle args
   | "schedule" :: args => Schedule.handle args
+  | "escape" :: args => Escape.handle args
+  | "docstring" :: args => Docstring.handle args
+  | "config" :: args => Config.handle args
+  | "epytext" :: args => Epytext.handle args
+  | "determinism" :: args => Determinism.handle args
   | _ => "bad-op"
 
 partial def loop (h : IO.FS.Stream) (out : IO.FS.Stream) : IO Unit := do
